@@ -15,7 +15,10 @@ call-through wrappers (mock.patch) that record
   `_s_parents` with its path-compression state, `_q_parents`, every cluster's root/size/parity/
   boundary list), the roots and the parent arrays after `_update_parents`, per peeling tree the
   member stabilizers/qubits, the spanning-tree matrix and the leaf list returned by `_build_tree`,
-  per peeling round `parents / leaves / syndrome`, the peeled correction list, the final vector.
+  per peeling round `parents / leaves / syndrome`, the peeled correction list (`C:`: the indices in the
+  order `correction.extend` appended them, round by round - since the repair of `Peeling_Tree.peel` one
+  index per syndrome-carrying leaf, `shared.argmax(axis=1)`; the `P:` line of a round gives the leaves and
+  the syndrome before the round, so the number of indices per round is pinned too), the final vector.
 """
 from __future__ import annotations
 
